@@ -37,6 +37,45 @@ enum Sc {
     Wide { polarity: Polarity, c: usize, a: Vec<(usize, i64)>, b: Vec<(usize, i64)>, n_identical: usize, trials: u64, seed: u64, cells_total: u64 },
 }
 
+/// ENUMERATED single selections: every result matrix with values in {0, 1, 2} for n individuals x a available
+/// cases with n * a <= 6, every configured case count 0..=a, both polarities, 4 streams.
+const ENUM_DIMS: [(usize, usize); 11] = [(1, 0), (2, 0), (3, 0), (1, 1), (1, 2), (1, 3), (2, 1), (2, 2), (2, 3), (3, 1), (3, 2)];
+
+fn enum_block(n: usize, a: usize) -> u64 {
+    3u64.pow((n * a) as u32) * (a as u64 + 1) * 2 * 4
+}
+
+fn enum_cells() -> u64 {
+    ENUM_DIMS.iter().map(|(n, a)| enum_block(*n, *a)).sum()
+}
+
+fn enum_cell(mut idx: u64) -> Sc {
+    let (mut n, mut a) = ENUM_DIMS[0];
+    for (dn, da) in ENUM_DIMS {
+        n = dn;
+        a = da;
+        let b = enum_block(dn, da);
+        if idx < b {
+            break;
+        }
+        idx -= b;
+    }
+    let stream = idx % 4;
+    idx /= 4;
+    let polarity = if idx % 2 == 0 { Polarity::Score } else { Polarity::Error };
+    idx /= 2;
+    let c = (idx % (a as u64 + 1)) as usize;
+    idx /= a as u64 + 1;
+    let rows: Vec<Vec<i64>> = (0..n).map(|i| (0..a).map(|j| ((idx / 3u64.pow((i * a + j) as u32)) % 3) as i64).collect()).collect();
+    let rng = match stream {
+        0 => RngSpec::seeded(1 + idx),
+        1 => RngSpec::seeded(0x2545_f491 ^ idx),
+        2 => RngSpec { q16: 16, ..RngSpec::seeded(3) },
+        _ => RngSpec { q16: 5, ..RngSpec::seeded(4 ^ idx) },
+    };
+    Sc::One { m: Matrix { polarity, rows, c }, rng }
+}
+
 const WIDE: u64 = 8;
 const WIDE_CELLS: u64 = 6 + 2 * 8;
 
@@ -560,6 +599,9 @@ impl Check for C08 {
                 seed: g.next_u64(),
                 cells_total: mats * 6 + WIDE_CELLS,
             };
+        }
+        if run >= mats + WIDE && run < mats + WIDE + enum_cells() {
+            return enum_cell(run - mats - WIDE);
         }
         if g.chance(1, 25) {
             return Sc::One { m: gen_big_matrix(g), rng: RngSpec::swarm(g) };
